@@ -185,6 +185,15 @@ Definition run_lint (c : cfg) (x : lint_input) : outcome :=
 Definition count (c : cfg) (s : severity) (ds : list diag) : nat :=
   List.length (filter (fun d => sev_eqb (effective c d) s) ds).
 
+(* what the verbosity lets through to the terminal *)
+Definition visible (v : nat) (s : severity) : bool :=
+  match s with
+  | SevError => true
+  | SevWarning => negb (level_lt (level_of v) LevelWarning)
+  | SevInfo => negb (level_lt (level_of v) LevelInfo)
+  | SevIgnore => false
+  end.
+
 (* the code BEFORE the repair (kept to state why it was needed): Run swallowed the error in -json
    mode and runLint had nothing to look at *)
 Definition run_lint_unrepaired (c : cfg) (x : lint_input) : outcome :=
